@@ -9,8 +9,8 @@ def handle (j : Json) : R Json := do
   match kind with
   | "clique" =>
     let tau ← fieldAs Nat j "tau"
-    let nH := fieldD Nat j "nH" (tau - 1)
-    let v : Poly := cliqueEquation tau pvar ((List.range nH).map fun i => uvar i)
+    let hs := fieldD (List Nat) j "hs" (List.range (tau - 1))
+    let v : Poly := cliqueEquation tau pvar (hs.map fun i => uvar i)
     pure <| obj [("poly", polyJson v)]
   | "cycle" =>
     let n ← fieldAs Nat j "n"
